@@ -1,0 +1,72 @@
+// SPDX-License-Identifier: Apache-2.0
+// Copyright Authors of Cilium
+
+//go:build verif
+
+package statedb
+
+import (
+	"sync/atomic"
+	"time"
+)
+
+// Verification instrumentation. Only compiled with `-tags verif`.
+
+// verifHookFn is called at named protocol points of WriteTxn, Commit, Abort,
+// registerTable, the graveyard worker and deleteTracker.close.
+var verifHookFn atomic.Pointer[func(point string)]
+
+// VerifSetHook installs (or with nil removes) the hook callback.
+func VerifSetHook(fn func(point string)) {
+	if fn == nil {
+		verifHookFn.Store(nil)
+		return
+	}
+	verifHookFn.Store(&fn)
+}
+
+func verifHook(point string) {
+	if fn := verifHookFn.Load(); fn != nil {
+		(*fn)(point)
+	}
+}
+
+// VerifEncodeNonUniqueKey exposes encodeNonUniqueKey.
+func VerifEncodeNonUniqueKey(primary, secondary []byte) []byte {
+	return encodeNonUniqueKey(primary, secondary)
+}
+
+// VerifEncodeNonUniqueBytes exposes encodeNonUniqueBytes.
+func VerifEncodeNonUniqueBytes(src []byte) []byte {
+	return encodeNonUniqueBytes(src)
+}
+
+// VerifEncodedLength exposes encodedLength.
+func VerifEncodedLength(src []byte) int {
+	return encodedLength(src)
+}
+
+// VerifNonUniqueKeySplit exposes the nonUniqueKey accessors.
+func VerifNonUniqueKeySplit(k []byte) (primaryLen, secondaryLen int, encodedPrimary, encodedSecondary []byte) {
+	nuk := nonUniqueKey(k)
+	return nuk.primaryLen(), nuk.secondaryLen(), nuk.encodedPrimary(), nuk.encodedSecondary()
+}
+
+// VerifGraveyardLen returns the number of objects retained in the graveyard
+// of the table in the given snapshot.
+func VerifGraveyardLen(txn ReadTxn, table TableMeta) int {
+	return table.numDeletedObjects(txn)
+}
+
+// VerifSetGCRateLimitInterval sets the graveyard GC interval (before Start).
+func (db *DB) VerifSetGCRateLimitInterval(d time.Duration) {
+	db.setGCRateLimitInterval(d)
+}
+
+// VerifTriggerGC triggers a graveyard collection round (non-blocking).
+func (db *DB) VerifTriggerGC() {
+	select {
+	case db.gcTrigger <- struct{}{}:
+	default:
+	}
+}
